@@ -8,6 +8,7 @@ reduction identity over ℝ.
 import NumqiProofs.PartialTrace
 import NumqiProofs.Dicke
 import NumqiProofs.DickeReduction
+import NumqiProofs.DickeUsers
 import Mathlib.Analysis.Real.Sqrt
 import Mathlib.Data.Complex.Basic
 import Mathlib.Data.Complex.BigOperators
@@ -339,6 +340,118 @@ theorem dicke_reduction_eq : DickeReduction.Statement := by
   refine Eq.trans (row_sum (n + 1) d r s hd1 hr hs i (mem_range.1 hi) (fun i j => ψ α i * (starRingEnd ℂ) (ψ β j))) ?_
   refine sum_congr rfl fun j _ => ?_
   rw [coef_eq_coefN]
+
+/-! ## Part 4: the users of the reduction (`entangle/pureb.py`, `maximum_entropy/_internal.py`) -/
+
+/-- the embedded vector on the flat index of the register `[A, B, B^{⊗n}]` -/
+noncomputable def embedFlat (d n : ℕ) (ψ : ℕ → ℕ → ℂ) (x : ℕ) : ℂ := embed d (n + 1) ψ (x / d ^ (n + 1)) (x % d ^ (n + 1))
+
+/-- **the explicit reduction of Part 3 is the model's `partialTrace`** of `|Ψ⟩⟨Ψ|` over the register `[dimA, d, d^n]` with the
+last block traced out -/
+theorem explicitAB_eq_partialTrace (dimA d n : ℕ) (ψ : ℕ → ℕ → ℂ) (α r β s : ℕ) (hr : r < d) (hs : s < d) :
+    explicitAB d n ψ α r β s
+      = partialTrace [dimA, d, d ^ n] [true, true, false]
+          (fun x y => embedFlat d n ψ x * (starRingEnd ℂ) (embedFlat d n ψ y)) (α * d + r) (β * d + s) := by
+  simp only [explicitAB, partialTrace, sumRange_eq_sum, ptIndex, prodSel, prodDims, Bool.false_eq_true, Bool.true_eq_false, if_false, if_true,
+    one_mul, mul_one, Nat.div_one, Nat.mod_one, Nat.add_zero, div_of_lt hr, mod_of_lt hr, div_of_lt hs, mod_of_lt hs]
+  refine sum_congr rfl fun y hy => ?_
+  have hy' := mem_range.1 hy
+  have hpow : d ^ (n + 1) = d * d ^ n := by rw [pow_succ, Nat.mul_comm]
+  have h1 : r * d ^ n + y < d ^ (n + 1) := by rw [hpow]; exact mul_add_lt hr hy'
+  have h2 : s * d ^ n + y < d ^ (n + 1) := by rw [hpow]; exact mul_add_lt hs hy'
+  have e1 : α * (d * d ^ n) + (r * d ^ n + y) = α * d ^ (n + 1) + (r * d ^ n + y) := by rw [hpow]
+  have e2 : β * (d * d ^ n) + (s * d ^ n + y) = β * d ^ (n + 1) + (s * d ^ n + y) := by rw [hpow]
+  simp only [embedFlat, Nat.add_assoc, e1, e2, div_of_lt h1, mod_of_lt h1, div_of_lt h2, mod_of_lt h2]
+
+/-- **`PureBosonicExt.forward`**: the density matrix it hands to the loss — parameter vector reshaped to `(dimA, L)` and reduced
+with the index table — is the `partialTrace` of the explicitly embedded state, for every parameter vector `v`. -/
+theorem pureb_forward_eq (dimA d n : ℕ) (hd : 2 ≤ d) (v : ℕ → ℂ) (α β r s : ℕ) (hr : r < d) (hs : s < d) :
+    @Dicke.purebReduce ℂ _ _ _ ⟨starRingEnd ℂ⟩ d (klist d (n + 1)).length (tableC (n + 1) d) v (α * d + r) (β * d + s)
+      = partialTrace [dimA, d, d ^ n] [true, true, false]
+          (fun x y => embedFlat d n (purebCoeff (klist d (n + 1)).length v) x
+            * (starRingEnd ℂ) (embedFlat d n (purebCoeff (klist d (n + 1)).length v) y)) (α * d + r) (β * d + s) := by
+  rw [← explicitAB_eq_partialTrace dimA d n _ α r β s hr hs]
+  exact dicke_reduction_eq d n hd (purebCoeff (klist d (n + 1)).length v) α β r s hr hs
+
+/-- **`sdp_2local_rdm_solve`**: the two nested `partial_trace` calls give the reduced state of the block `(ind0, ind0+1)`:
+one `partialTrace` over the register `[L, 4, R]` (`L = 2^ind0`, `R = 2^(n-2-ind0)`) keeping the middle block. -/
+theorem rdm2local_eq {M : Type} [AddCommMonoid M] (L R : ℕ) (hL : L ≠ 1) (hR : R ≠ 1) (X : ℕ → ℕ → M) (a b : ℕ) :
+    rdmTwoStep L R X a b = partialTrace [L, 4, R] [false, true, false] X a b := rdmTwoStep_eq L R hL hR X a b
+
+/-- boundary blocks of the chain (`ind0 = 0`, `ind0 = n-2`) -/
+theorem rdm2local_boundary {M : Type} [AddCommMonoid M] (B : ℕ) (hB : B ≠ 1) (X : ℕ → ℕ → M) (a b : ℕ) :
+    rdmTwoStep 1 B X a b = partialTrace [4, B] [true, false] X a b ∧
+    rdmTwoStep B 1 X a b = partialTrace [B, 4] [false, true] X a b :=
+  ⟨rdmTwoStep_left B hB X a b, rdmTwoStep_right B hB X a b⟩
+
+/-- splitting an axis into two axes with the same mask bit does not change the partial trace (so `[L,4,R]` may be read as the
+qubit register `[2,…,2]` one factor at a time) -/
+theorem partialTrace_regroup {M : Type} [AddCommMonoid M] (d1 d2 : ℕ) (ds : List ℕ) (k : Bool) (ks : List Bool)
+    (ρ : ℕ → ℕ → M) (a b : ℕ) :
+    partialTrace (d1 :: d2 :: ds) (k :: k :: ks) ρ a b = partialTrace (d1 * d2 :: ds) (k :: ks) ρ a b :=
+  partialTrace_split d1 d2 ds k ks ρ a b
+
+section users
+variable {R : Type} [CommRing R] [StarRing R]
+
+/-- **expectation of an operator embedded on the kept axes = expectation in the partial trace** (the identity behind both
+`get_ABk_gellmann_preimage_op` kinds and the 2-local constraints) -/
+theorem embedded_expectation (dims : List ℕ) (keep : List Bool) (hlen : dims.length = keep.length) (G : ℕ → ℕ → R) (ψ : ℕ → R) :
+    ∑ x ∈ range (prodDims dims), ∑ y ∈ range (prodDims dims), star (ψ x) * embedKeep dims keep G x y * ψ y
+      = ∑ u ∈ range (prodSel true dims keep), ∑ v ∈ range (prodSel true dims keep),
+          G u v * partialTrace dims keep (fun y x => ψ y * star (ψ x)) v u :=
+  embedKeep_expectation dims keep hlen G ψ
+
+/-- **`get_ABk_gellmann_preimage_op(kind='symmetric')`** (numerator; the code divides by `kext`) -/
+theorem preimage_symmetric_expectation (dimA dimB k : ℕ) (G : ℕ → ℕ → R) (ψ : ℕ → R) :
+    ∑ x ∈ range (prodDims (dimA :: List.replicate k dimB)), ∑ y ∈ range (prodDims (dimA :: List.replicate k dimB)),
+        star (ψ x) * preimageSymSum dimA dimB k G x y * ψ y
+      = ∑ c ∈ range k, ∑ u ∈ range (prodSel true (dimA :: List.replicate k dimB) (maskAB k (c + 1))),
+          ∑ v ∈ range (prodSel true (dimA :: List.replicate k dimB) (maskAB k (c + 1))),
+          G u v * partialTrace (dimA :: List.replicate k dimB) (maskAB k (c + 1)) (fun y x => ψ y * star (ψ x)) v u :=
+  preimageSym_expectation dimA dimB k G ψ
+
+/-- **`get_ABk_gellmann_preimage_op(kind='boson')`**: `⟨ψ|preimage(G)|ψ⟩ = Tr(G·ρ_AB)` with `ρ_AB` the fast reduction written with
+the same tensor (`assembleTensor`), for every tensor with the overlap symmetry `B[r,s,i,j] = B[s,r,j,i]`. -/
+theorem preimage_boson_expectation (dimA dimB L : ℕ) (G : ℕ → ℕ → R) (B : ℕ → ℕ → ℕ → ℕ → R)
+    (hsym : ∀ r s i j, B r s i j = B s r j i) (ψ : ℕ → ℕ → R) :
+    ∑ x ∈ range (dimA * L), ∑ y ∈ range (dimA * L),
+        star (ψ (x / L) (x % L)) * preimageBoson dimB L G B x y * ψ (y / L) (y % L)
+      = ∑ u ∈ range (dimA * dimB), ∑ v ∈ range (dimA * dimB), G u v * assembleTensor dimB L B ψ v u :=
+  preimageBoson_expectation dimA dimB L G B hsym ψ
+
+end users
+
+/-- **list form = tensor form** of the fast reduction, for the real index table: `partial_trace_ABk_to_AB(ψ, Bij)` equals the
+contraction of `ψ ⊗ conj ψ` with `get_partial_trace_ABk_to_AB_index(…, return_tensor=True)` (what `get_ABk_gellmann_preimage_op`
+uses), for every `(n, d)`. -/
+theorem reduction_list_eq_tensor (N d : ℕ) (ψ : ℕ → ℕ → ℂ) (x y : ℕ) :
+    @Dicke.assembleAB ℂ _ _ _ ⟨starRingEnd ℂ⟩ d (tableC N d) ψ x y
+      = @Dicke.assembleTensor ℂ _ _ _ ⟨starRingEnd ℂ⟩ d (klist d N).length
+          (@Dicke.tensorOfTable ℂ _ d (tableC N d)) ψ x y := by
+  refine @assembleAB_eq_assembleTensor ℂ _ _ d (klist d N).length (tableC N d) ψ ?_ ?_ x y
+  · intro q e he
+    simp only [tableC, List.mem_map] at he
+    obtain ⟨e0, he0, rfl⟩ := he
+    exact (bijTable_wf N d (q / d) (q % d)).1 e0 he0
+  · intro q
+    simp only [tableC]
+    rw [List.pairwise_map]
+    exact (bijTable_wf N d (q / d) (q % d)).2
+
+/-- Boolean check of the overlap symmetry `B[r,s,i,j] = B[s,r,j,i]` (on `value²`) -/
+def tensorSymmetric (n d : ℕ) : Bool :=
+  let L := (klist d n).length
+  let T := @Dicke.tensorOfTable ℚ _ d (fun q => bijTable n d (q / d) (q % d))
+  (List.range d).all fun r => (List.range d).all fun s => (List.range L).all fun i => (List.range L).all fun j =>
+    decide (T r s i j = T s r j i)
+
+/-- the symmetry hypothesis of `preimage_boson_expectation` holds for the executed table (kernel evaluation, small sizes; the
+tensor itself is compared with the implementation exactly on every run) -/
+theorem tensor_symmetric_small :
+    tensorSymmetric 1 2 = true ∧ tensorSymmetric 2 2 = true ∧ tensorSymmetric 3 2 = true ∧ tensorSymmetric 4 2 = true ∧
+    tensorSymmetric 2 3 = true ∧ tensorSymmetric 3 3 = true ∧ tensorSymmetric 2 4 = true := by
+  decide +kernel
 
 /-- rational square of `coef` for total copy number `n` -/
 def coefSq (n r s : ℕ) (a b : List ℕ) : ℚ :=
